@@ -23,7 +23,7 @@ ASSUMPTIONS = [
     "every effect may raise, so at most one non-pure child is generated per unspecified-order context (argument lists)",
     "statement-producing forms as exception-type expressions are not generated (Hy hoists them; the docs do not define it)",
 ]
-FORMS = ["try", "try", "with", "with", "raise", "do2", "if", "setv", "setx", "callfn", "let", "and", "or", "when"]
+FORMS = ["try", "try", "with", "with", "withpre", "raise", "do2", "if", "setv", "setx", "callfn", "let", "and", "or", "when"]
 
 
 def check_case(case):
@@ -34,27 +34,9 @@ def check_case(case):
         c = P.Compiled(prog, case.get("mode", "module"))
     except SyntaxError as e:
         return ("compile-error", dict(source=P.wrap_source(prog, case.get("mode", "module")), error=str(e)[:200]))
-    plans = [case["fault"]] if "fault" in case else [None]
-    for f in plans:
-        r = tag(c.check(f))
-        if r is not None:
-            return (r[0], r[1])
-    return None
-
-
-def tag(r):
-    """Root-cause tag for the recorded finding: the value of a multi-manager `with` whose inner manager's __exit__
-    raises after the body completed, the exception being suppressed by an outer manager of the same form."""
-    if r is None:
-        return r
-    d = r[1]
-    f = d.get("fault")
-    if r[0] == "value-differs" and d.get("expected") == "None" and f:
-        log = d.get("log") or []
-        for k, _cls in f:
-            if 0 < k <= len(log) and log[k - 1] >= 1000 and log[k - 1] % 10 == 2:
-                return (r[0] + "|exit-raises-after-body-then-suppressed", d)
-    return r
+    # Compiled.check decides whether a disagreement is exactly the recorded finding (bucket suffix P.KNOWN_WITH_TAG):
+    # it re-runs the reference with that one defect modelled and requires full agreement in value, exception and trace
+    return c.check(case.get("fault"))
 
 
 def has_trywith(prog):
@@ -83,21 +65,45 @@ def shard(ctx):
         ref0 = P.interpret(prog, mode)
         n = ref0["nevents"]
         r = c.check(None)
-        ctx.case(key=(src, None), nontrivial=False, cls="fault-free", sample=src)
+        shape = ["fault-free"]
+        withs = [x for x in P._walk(prog) if x[0] == "with"]
+        if any(len(w[1]) > 1 for w in withs):
+            shape.append("program:with-of-several-managers")
+        pres = {P.mgr_pre(m) for w in withs for m in w[1]} - {None}
+        if pres:
+            shape.append("program:manager-expression-needs-statements")
+        ctx.case(key=(src, None), nontrivial=False, cls=shape, sample=src)
         if r is not None:
             ctx.fail(dict(prog=prog, mode=mode), r[0], r[1])
             return
         classes = ["XA", "XC"] if ctx.quick else ["XA", "XB", "XC"]
         seen = set()
+        log0 = c.run(None)["log"] if r is None else []
+
+        def where(k):
+            if not 0 < k <= len(log0):
+                return "fault-at:?"
+            e = log0[k - 1]
+            if e >= 1000:
+                return "fault-at:__enter__" if e % 10 == 1 else "fault-at:__exit__"
+            return "fault-at:manager-expression" if e in pres else "fault-at:body/handler/else/finally form"
+
+        def report(plan, r):
+            if r is None:
+                return
+            if r[0].endswith(P.KNOWN_WITH_TAG):
+                ctx.excluded_known += 1
+            if r[0] not in seen:
+                seen.add(r[0])
+                ctx.fail(dict(prog=prog, mode=mode, fault=plan), r[0], r[1])
+
         # exhaustive single faults
         for k in range(1, n + 1):
             for cls in classes:
                 plan = [[k, cls]]
-                r = tag(c.check(plan))
-                ctx.case(key=(src, k, cls), nontrivial=k > 1, cls=["single-fault", "exc:" + cls], sample="%s  ;; fault %s at effect point %d of %d" % (src, cls, k, n))
-                if r is not None and r[0] not in seen:
-                    seen.add(r[0])
-                    ctx.fail(dict(prog=prog, mode=mode, fault=plan), r[0], r[1])
+                r = c.check(plan)
+                ctx.case(key=(src, k, cls), nontrivial=k > 1, cls=["single-fault", "exc:" + cls, where(k)], sample="%s  ;; fault %s at effect point %d of %d" % (src, cls, k, n))
+                report(plan, r)
         # pairs: the second index counts events of the run that already had the first fault
         pairs = []
         if n >= 1:
@@ -112,16 +118,14 @@ def shard(ctx):
             plan = [[k1, c1], [k2, c2]]
             ref = P.interpret(prog, mode, plan)
             hit_second = ref["nevents"] >= k2
-            r = tag(c.check(plan))
+            r = c.check(plan)
             ctx.case(key=(src, k1, c1, k2, c2), nontrivial=hit_second, cls=["fault-pair", "second-fault-" + ("hit" if hit_second else "not-reached")],
                      sample="%s  ;; faults %s@%d %s@%d" % (src, c1, k1, c2, k2))
-            if r is not None and r[0] not in seen:
-                seen.add(r[0])
-                ctx.fail(dict(prog=prog, mode=mode, fault=plan), r[0], r[1])
+            report(plan, r)
 
     ctx.hyp(strat, one, ctx.per_shard(4000, 60000), "programs")
 
 
 MATCHERS = {
-    "exit_raises_after_body": lambda case, bucket, detail: bucket.endswith("|exit-raises-after-body-then-suppressed"),
+    "exit_raises_after_body": lambda case, bucket, detail: bucket.endswith(P.KNOWN_WITH_TAG),
 }
